@@ -290,6 +290,9 @@ func (e *Exec) intrinsic(fn *ssa.Function, args []value) value {
 	if r, ok := e.fsIntrinsic(fn.Name(), args); ok {
 		return r
 	}
+	if r, ok := e.raceIntrinsic(fn.Name(), args); ok {
+		return r
+	}
 	if e.lenient() {
 		res := fn.Signature.Results()
 		if res.Len() == 0 {
@@ -495,12 +498,14 @@ func init() {
 		l := e.lockOf(mutexPtr(args[0]))
 		e.block("RLock", func() bool { return !l.writer && l.writersWaiting == 0 })
 		l.readers++
+		e.raceLock(mutexPtr(args[0]), lockR, true)
 		return nil
 	}
 	stubs["(*sync.RWMutex).TryRLock"] = func(e *Exec, fn *ssa.Function, args []value) value {
 		l := e.lockOf(mutexPtr(args[0]))
 		if !l.writer && l.writersWaiting == 0 {
 			l.readers++
+			e.raceLock(mutexPtr(args[0]), lockR, true)
 			return Bool{C: true}
 		}
 		return Bool{C: false}
@@ -511,6 +516,7 @@ func init() {
 			panic(goPanic{"fatal error: sync: RUnlock of unlocked RWMutex"})
 		}
 		l.readers--
+		e.raceLock(mutexPtr(args[0]), lockR, false)
 		return nil
 	}
 	lock := func(e *Exec, fn *ssa.Function, args []value) value {
@@ -519,6 +525,7 @@ func init() {
 		e.block("Lock", func() bool { return !l.writer && l.readers == 0 })
 		l.writersWaiting--
 		l.writer = true
+		e.raceLock(mutexPtr(args[0]), lockW, true)
 		return nil
 	}
 	unlock := func(e *Exec, fn *ssa.Function, args []value) value {
@@ -527,6 +534,7 @@ func init() {
 			panic(goPanic{"fatal error: sync: Unlock of unlocked mutex"})
 		}
 		l.writer = false
+		e.raceLock(mutexPtr(args[0]), lockW, false)
 		return nil
 	}
 	stubs["(*sync.RWMutex).Lock"], stubs["(*sync.Mutex).Lock"] = lock, lock
@@ -535,6 +543,7 @@ func init() {
 		l := e.lockOf(mutexPtr(args[0]))
 		if !l.writer && l.readers == 0 {
 			l.writer = true
+			e.raceLock(mutexPtr(args[0]), lockW, true)
 			return Bool{C: true}
 		}
 		return Bool{C: false}
@@ -571,10 +580,18 @@ func init() {
 	}
 
 	// sync/atomic on plain words
-	load := func(e *Exec, fn *ssa.Function, args []value) value { return copyVal(*args[0].(*value)) }
-	store := func(e *Exec, fn *ssa.Function, args []value) value { *args[0].(*value) = args[1]; return nil }
+	load := func(e *Exec, fn *ssa.Function, args []value) value {
+		e.raceRecord(args[0].(*value), false, true, "atomic load")
+		return copyVal(*args[0].(*value))
+	}
+	store := func(e *Exec, fn *ssa.Function, args []value) value {
+		e.raceRecord(args[0].(*value), true, true, "atomic store")
+		*args[0].(*value) = args[1]
+		return nil
+	}
 	add := func(e *Exec, fn *ssa.Function, args []value) value {
 		p := args[0].(*value)
+		e.raceRecord(p, true, true, "atomic add")
 		*p = intBinop(token.ADD, (*p).(Int), args[1].(Int))
 		return *p
 	}
